@@ -78,7 +78,9 @@ def _ms(seq):
 
 def tsnap(t):
     return (t.trs, t.desc, t.pp_desc, tuple(t.lots), tuple(t.qqs),
-            tuple(sorted(t.lot_acres.items())), tuple(t.aliquots_whole),
+            (tuple(sorted(t.lot_acres.items())), tuple(t.ilots),
+             tuple(t.lots_qqs), t.twprge, t.sec_num, t.desc_is_flawed),
+            tuple(t.aliquots_whole),
             _ms(t.w_flags), _ms(t.w_flag_lines), _ms(t.e_flags),
             _ms(t.e_flag_lines), t.parse_complete, t.orig_index,
             t.orig_desc, t.source, t.config.decompile_to_text(),
@@ -88,7 +90,8 @@ def tsnap(t):
                 'qq_depth_max', 'break_halves')))
 
 
-TNAMES = ('trs', 'desc', 'pp_desc', 'lots', 'qqs', 'lot_acres',
+TNAMES = ('trs', 'desc', 'pp_desc', 'lots', 'qqs',
+          'lot_acres/ilots/lots_qqs/twprge/sec_num/desc_is_flawed',
           'aliquots_whole', 'w_flags', 'w_flag_lines', 'e_flags',
           'e_flag_lines', 'parse_complete', 'orig_index', 'orig_desc',
           'source', 'config', 'settings')
